@@ -303,6 +303,8 @@ def run_shard(ctx):
             ctx.inconclusive_case("watchdog", case)
             out = "timeout"
         ctx.case(("chain", depth, case["api"], case["array"], case["fanout"], case["nsdepth"], case["order"]), True, classes=["kind-chain", "chain-depth-%s" % (depth if depth in (3, 10, 30, 60, 80, 100, 150, 300, 900, 1100) else "40..89"), "chain-fanout-%d" % case["fanout"], "chain-nsdepth-%d" % case["nsdepth"], "chain-" + case["order"], "chain-outcome-" + out.split(":")[0]])
+    if ctx.shard == 0:
+        degenerate_targets(ctx, pydsdl)
     # hostile file names
     for j in range(ctx.share(ctx.params["n_names"])):
         if ctx.out_of_time():
@@ -347,10 +349,34 @@ def run_shard(ctx):
         ctx.case(("name", tuple(parts)), True, classes=["name-" + cls, "name-outcome-" + out.split(":")[0]])
 
 
+def degenerate_targets(ctx, pydsdl):
+    """read_files given something that is no path to a file at all: still an InvalidDefinitionError (or the model), nothing else."""
+    base = ctx.tmp / "c13d"
+    shutil.rmtree(base, ignore_errors=True)
+    root = base / "nsroot"
+    (root / "sub").mkdir(parents=True)
+    (root / "Ok.1.0.dsdl").write_text("@sealed\n")
+    old = os.getcwd()
+    try:
+        os.chdir(base)
+        for tgt in ["", ".", "..", "/", "nsroot", "nsroot/", "nsroot/sub", "nsroot/.", "nsroot/..", "nsroot/Ok.1.0.dsdl/", "nsroot/Ok.1.0.dsdl/.", "./", "//"]:
+            for roots in (["nsroot"], [], [root], ["."]):
+                ctx.mon("file-name")
+                case = {"degenerate_target": tgt, "roots": [str(r) for r in roots]}
+                out = classify(ctx, pydsdl, lambda: pydsdl.read_files([tgt], roots), None, set(), "read_files target %r, roots %r" % (tgt, roots), case)
+                ctx.case(("degenerate", tgt, str(roots)), True, classes=["name-degenerate-target", "name-outcome-" + out.split(":")[0]])
+    finally:
+        os.chdir(old)
+        shutil.rmtree(base, ignore_errors=True)
+
+
 def replay(ctx, case):
     from pv.props.c02 import fix_universe
 
     pydsdl = import_pydsdl()
+    if "degenerate_target" in case:
+        degenerate_targets(ctx, pydsdl)
+        return
     if "chain" in case:
         print(run_chain(ctx, pydsdl, case, ctx.tmp))
     elif "text" in case:
